@@ -19,10 +19,15 @@ pub fn generate_optimization_report(
 
     let mut total_optimizations_found = 0;
 
+    //Render the sections in a fixed order, independent of hash map iteration and file discovery order
+    let mut optimizations = optimizations.into_iter().collect::<Vec<_>>();
+    optimizations.sort_by_key(|optimization| optimization.0 as usize);
+
     for optimization in optimizations {
         if optimization.1.len() > 0 {
             let optimization_target = optimization.0;
-            let matches = optimization.1;
+            let mut matches = optimization.1;
+            matches.sort();
 
             let report_section = get_optimization_report_section(optimization_target);
 
